@@ -220,7 +220,7 @@ def build(repo):
     f.resub('E3', r'(?<![\.\w])(subject_index|predicate_index)\b', r'self.\1')
     f.sub('E3', '= *object_index', '= self.object_index')
     f.R6()
-    f.resub_opt('X1', re.escape('t.as_ref() != triple'), '&**t != triple')   # Arc::as_ref == Arc::deref (optional: other closure bodies are taken verbatim)
+    f.resub_opt('X1', r'\bt\.as_ref\(\)', '(&**t)')   # Arc::as_ref == Arc::deref on the closure parameter (other closure bodies are taken verbatim)
     COMP = ['subject', 'predicate', 'object']
     f.R10('retain', '&Arc<Triple>', lambda i: 'requires (**t).%s == triple.%s, ensures /*@rdfstore::RdfStore::remove::closure#retain_%s_bucket_keeps_exactly_the_other_triples*/ r == (**t != *triple),' % (COMP[i], COMP[i], COMP[i]))
     f.requires('wf', 'index_wf(old(self).subject_index@, Comp::S) && index_wf(old(self).predicate_index@, Comp::P)'
@@ -254,11 +254,11 @@ def build(repo):
     }
     lemma_bucket_update(%s, new_m, *triple, Comp::%s);
 }''' % (comp_field, place, ghost0, ghost0, ghost0, ghost0, ghost0, ghost0, ghost0, comp_enum)
-    f.before('self.subject_index.remove(', 'let ghost S1 = self.subject_index@;\nproof { lemma_get_mut_effect(S0, S1, triple.subject); assert(a0 =~= Seq::<Arc<Triple>>::empty()); }')
-    f.before('self.predicate_index.remove(', 'let ghost P1 = self.predicate_index@;\nproof { lemma_get_mut_effect(P0, P1, triple.predicate); assert(a1 =~= Seq::<Arc<Triple>>::empty()); }')
+    f.before('self.subject_index.remove(', 'let ghost S1 = self.subject_index@;\nproof { lemma_get_mut_effect(S0, S1, triple.subject); assert(a0 =~= Seq::<Arc<Triple>>::empty()); }', optional=True)
+    f.before('self.predicate_index.remove(', 'let ghost P1 = self.predicate_index@;\nproof { lemma_get_mut_effect(P0, P1, triple.predicate); assert(a1 =~= Seq::<Arc<Triple>>::empty()); }', optional=True)
     f.before('if let Some(vec) = self.predicate_index', merge_hint('S0', 'self.subject_index@', 'subject', 'S'))
     f.before('if self.config.index_objects', merge_hint('P0', 'self.predicate_index@', 'predicate', 'P'))
-    f.before(' index.remove(', 'let ghost O1 = index@;\nproof { lemma_get_mut_effect(O0, O1, triple.object); assert(a2 =~= Seq::<Arc<Triple>>::empty()); }')
+    f.before(' index.remove(', 'let ghost O1 = index@;\nproof { lemma_get_mut_effect(O0, O1, triple.object); assert(a2 =~= Seq::<Arc<Triple>>::empty()); }', optional=True)
     f.before_tail('''proof {
     if old(self).config.index_objects && old(self).object_index is Some {
         let k = triple.object;
